@@ -14,6 +14,8 @@ pub enum Body {
     Val(i64),
     /// object stream holding value objects `(num, v)`
     ObjStm { items: Vec<(u32, i64)>, flate: bool },
+    /// object stream holding arbitrary (non-stream) objects given as text
+    ObjStmRaw { items: Vec<(u32, Vec<u8>)>, flate: bool },
     /// verbatim body bytes (between `N G obj\n` and `\nendobj\n`)
     Raw(Vec<u8>),
     /// stream object: extra dictionary text (without /Length) + data
@@ -114,6 +116,28 @@ pub fn write_phys(buf: &mut Vec<u8>, p: &Phys) -> u64 {
         Body::Val(v) => buf.extend_from_slice(value_dict(p.num, *v).as_bytes()),
         Body::Raw(b) => buf.extend_from_slice(b),
         Body::Stream { dict, data } => write_stream(buf, dict, data),
+        Body::ObjStmRaw { items, flate } => {
+            let mut bodies: Vec<u8> = vec![];
+            let mut head = String::new();
+            for (n, b) in items {
+                head.push_str(&format!("{} {} ", n, bodies.len()));
+                bodies.extend_from_slice(b);
+                bodies.push(b'\n');
+            }
+            let first = head.len();
+            let mut payload = head.into_bytes();
+            payload.extend_from_slice(&bodies);
+            if *flate {
+                let z = deflate(&payload);
+                write_stream(
+                    buf,
+                    &format!("/Type /ObjStm /N {} /First {} /Filter /FlateDecode", items.len(), first),
+                    &z,
+                );
+            } else {
+                write_stream(buf, &format!("/Type /ObjStm /N {} /First {}", items.len(), first), &payload);
+            }
+        }
         Body::ObjStm { items, flate } => {
             let (first, payload) = objstm_payload(items);
             if *flate {
